@@ -461,6 +461,50 @@ def path_differential(tier, seed):
                     form = '*:local' if '*:' in lhs else ('prefix:*' if ':*' in lhs else ('Q{uri}' if 'Q{' in lhs else 'QName'))
                     bad(f'a name test ({form}, {kind}) does not select the nodes with that expanded name', expr=lhs, equivalent=rhs, version=version,
                         got=[getattr(x, 'name', None) for x in a][:8], expected=[getattr(x, 'name', None) for x in b][:8], tree=repr(t)[:200])
+    # a default element namespace in the static context (2.0+): it applies to unprefixed element name tests only - not to Q{}local, not to attributes
+    dmap = dict(NSMAP)
+    dmap[''] = 'urn:x'
+    dflt = [('//Q{}' + loc, f"//*[local-name() = '{loc}' and namespace-uri() = '']", '3.0') for loc in ('a', 'b', 'ab')] + \
+           [('//' + loc, f"//*[local-name() = '{loc}' and namespace-uri() = 'urn:x']", '2.0') for loc in ('a', 'b', 'ab')] + \
+           [('//*/child::Q{}' + loc, f"//*/*[local-name() = '{loc}' and namespace-uri() = '']", '3.0') for loc in ('a', 'b')] + \
+           [('//@' + loc, f"//@*[local-name() = '{loc}' and namespace-uri() = '']", '2.0') for loc in ('k', 'id')] + \
+           [('//@Q{}' + loc, f"//@*[local-name() = '{loc}' and namespace-uri() = '']", '3.0') for loc in ('k', 'id')] + \
+           [('//Q{urn:x}b', "//*[local-name() = 'b' and namespace-uri() = 'urn:x']", '3.0'), ('//Q{urn:y}bb', "//*[local-name() = 'bb' and namespace-uri() = 'urn:y']", '3.0'),
+            ('//*:b', "//*[local-name() = 'b']", '2.0'), ('//q:tab/b', "//*[local-name() = 'tab']/*[local-name() = 'b' and namespace-uri() = 'urn:x']", '2.0'),
+            ('//q:tab/Q{}b', "//*[local-name() = 'tab']/*[local-name() = 'b' and namespace-uri() = '']", '3.0')]
+    for t in wtrees[-3:]:
+        rn = get_node_tree(ET.ElementTree(T.realise(t, 'et')), namespaces=dmap)
+        for lhs, rhs, since in dflt:
+            for version in ('2.0', '3.0', '3.1'):
+                if version < since:
+                    continue
+                n += 1
+                try:
+                    a = list(PARSERS[version](namespaces=dmap).parse(lhs).select(XPathContext(root=rn)))
+                    b = list(PARSERS[version](namespaces=dmap).parse(rhs).select(XPathContext(root=rn)))
+                except ElementPathError as e:
+                    bad('a name test raises under a default element namespace', expr=lhs, version=version, err=str(e)[:100], tree=repr(t)[:200])
+                    continue
+                if [id(x) for x in a] != [id(x) for x in b]:
+                    bad('with a default element namespace in the static context a name test (' + ('Q{}local' if 'Q{}' in lhs else 'attribute' if '@' in lhs else 'unprefixed element') +
+                        ') does not select the nodes with the expanded name it denotes', expr=lhs, equivalent=rhs, version=version,
+                        got=[getattr(x, 'name', None) for x in a][:8], expected=[getattr(x, 'name', None) for x in b][:8], tree=repr(t)[:200])
+    # the namespace axis holds one node per in-scope prefix (the xml prefix once, also when the caller's prefix map names it)
+    xmap = dict(NSMAP)
+    xmap['xml'] = 'http://www.w3.org/XML/1998/namespace'
+    for t in wtrees[-3:]:
+        for nsm in (NSMAP, xmap):
+            et_doc = ET.ElementTree(T.realise(t, 'et'))
+            for version in ('1.0', '2.0'):
+                n += 1
+                elems = list(PARSERS[version](namespaces=nsm).parse('//*').select(XPathContext(root=et_doc, namespaces=nsm)))
+                for e in elems:
+                    nodes = list(PARSERS[version](namespaces=nsm).parse('namespace::*').select(XPathContext(root=et_doc, item=e, namespaces=nsm)))
+                    names = [getattr(x, 'prefix', x[0] if isinstance(x, tuple) else None) for x in nodes]
+                    if len(names) != len(set(names)) or names.count('xml') != 1:
+                        bad('the namespace axis of an element has a prefix twice, or not the xml prefix exactly once', version=version, prefixes=repr(names)[:80],
+                            caller_map_has_xml='xml' in nsm, tree=repr(t)[:160])
+                        break
     fails = [{'key': k, 'items': it[:4], 'count': len(it), 'what': f'{k}: e.g. {it[0]}'} for k, it in fam.items()]
     return {'evaluations': n, 'distinct': n, 'exhaustive': False,
             'scope': f'{len(trees)} trees (all shapes up to {5 if tier == "quick" else 6} nodes with seeded decorations, 2 hand-written trees with nested same-named and '
